@@ -373,6 +373,12 @@ Theorem real_ticker_never_invents_ticks : forall ops,
 Proof. exact real_ticker_never_invents. Qed.
 Print Assumptions real_ticker_never_invents_ticks.
 
+(* the executable judge used by prop_ok for the ticker kind accepts the channel machine on every
+   history: like client_ok it is not an unproved oracle *)
+Theorem ticker_judge_accepts_channel_machine : forall ops, ticker_ok ops (frun finit 0 ops) = true.
+Proof. exact ticker_judge_accepts_model. Qed.
+Print Assumptions ticker_judge_accepts_channel_machine.
+
 Example ex_fake_ticker :
   frun finit 0 [TkTick; TkTick; TkRecv; TkRecv; TkRecv; TkTick; TkStop; TkRecv; TkTick] =
   [[(0, FSent)]; []; [(2, FGot 0); (1, FSent)]; [(3, FGot 1)]; []; [(4, FGot 5); (5, FSent)];
